@@ -41,7 +41,7 @@ class Hits:
 class ConnRecord:
     __slots__ = ("o2t_id", "t2o_id", "triple", "o2t_size", "t2o_size", "target", "route",
                  "session", "tcp", "last_seq", "cached", "last_us", "timeout_us", "large",
-                 "open", "seqs", "opened_op")
+                 "open", "seqs", "opened_op", "last_svc")
 
 
 class World:
@@ -352,6 +352,7 @@ class Module:
         rec.session = ctx.get("session")
         rec.tcp = ctx.get("tcp")
         rec.last_seq = None
+        rec.last_svc = None
         rec.cached = None
         rec.last_us = self.sim.now_us
         rec.timeout_us = max(o2t_rpi, 1) * (4 << (mult & 7))
@@ -714,8 +715,11 @@ class EipEndpoint:
         c.seqs.append(seq)
         world.log(kind="seq", conn=cid, seq=seq)
         if prev is not None and seq == prev:
+            svc = dd[2] if len(dd) > 2 else -1
             world.hits.hit("C17", "seq.adjacent", f"sequence count {seq} repeats the previous message's count on "
-                           f"connection 0x{cid:08x}", seq=seq)
+                           f"connection 0x{cid:08x} (services 0x{c.last_svc or 0:02x} then 0x{svc:02x})",
+                           services=f"0x{c.last_svc or 0:02x}->0x{svc:02x}",
+                           phase="wrap" if seq in (0, 1, 65535) else "mid")
             # class-3 duplicate detection: resend the cached reply, do not execute
             self._send_connected(c, seq, c.cached or b"", cmd, session, ctx8, tmo, None)
             return
@@ -732,6 +736,7 @@ class EipEndpoint:
         if len(rep) + 2 > c.t2o_size:
             world.log(kind="oversize_reply", size=len(rep) + 2, cs=c.t2o_size)
         c.last_seq = seq
+        c.last_svc = dd[2] if len(dd) > 2 else None
         c.cached = rep
         self._send_connected(c, seq, rep, cmd, session, ctx8, tmo, req)
 
